@@ -500,6 +500,42 @@ func (P *Program) registerStd() {
 		P.reg("sync/atomic.Swap"+ty, atomicSwap)
 		P.reg("sync/atomic.CompareAndSwap"+ty, atomicCAS)
 	}
+	// ---- sync.Map as an association list keyed by interface values
+	smOf := func(in *Interp, v value) *smap {
+		p := v.(*value)
+		key := fmt.Sprintf("syncmap:%p", p)
+		m, _ := in.extra[key].(*smap)
+		if m == nil {
+			m = newMap(types.NewInterfaceType(nil, nil))
+			in.extra[key] = m
+		}
+		return m
+	}
+	P.reg("(*sync.Map).Load", func(fr *frame, args []value) value {
+		in := fr.in
+		m := smOf(in, args[0])
+		if i := in.mapFind(m, args[1]); i >= 0 {
+			return tuple{m.vals[i], in.boolv(true)}
+		}
+		return tuple{iface{}, in.boolv(false)}
+	})
+	P.reg("(*sync.Map).Store", func(fr *frame, args []value) value {
+		fr.in.mapSet(smOf(fr.in, args[0]), args[1], args[2])
+		return nil
+	})
+	P.reg("(*sync.Map).LoadOrStore", func(fr *frame, args []value) value {
+		in := fr.in
+		m := smOf(in, args[0])
+		if i := in.mapFind(m, args[1]); i >= 0 {
+			return tuple{m.vals[i], in.boolv(true)}
+		}
+		in.mapSet(m, args[1], args[2])
+		return tuple{args[2], in.boolv(false)}
+	})
+	P.reg("(*sync.Map).Delete", func(fr *frame, args []value) value {
+		fr.in.mapDelete(smOf(fr.in, args[0]), args[1])
+		return nil
+	})
 	// ---- context
 	P.reg("context.Background", func(fr *frame, args []value) value {
 		return iface{t: fr.in.synthType("opaque.context.Context"), v: &opaque{kind: "context"}}
